@@ -40,6 +40,12 @@ Hist(t)   == IF Shape[t].colo = "none" THEN {} ELSE hist[Shape[t].colo]
 Tags      == {Shape[t].colo : t \in Tasks} \ {"none"}
 FitsNow(t)  == Fits(O, Shape[t], Hist(t), FALSE, FALSE)          \* intended accounting
 FitsCode(t) == Fits(O, Shape[t], Hist(t), DevNoLfsCheck, DevFracSameGpu)
+\* a task which brings its own placement fits when exactly that placement is free
+SupValid(t)  == /\ ShapeOK(Shape[t], Supplied[t], {}) /\ NoBlocked([x \in {t} |-> Supplied[t]])
+                /\ OnlyNodes([x \in {t} |-> Supplied[t]])
+FitsNowS(t)  == IF Supplied[t] # <<>> THEN SupValid(t) /\ CanTake(O, Supplied[t]) ELSE FitsNow(t)
+FitsIdleS(t) == IF Supplied[t] # <<>> THEN SupValid(t) /\ CanTake(InitOcc, Supplied[t])
+                ELSE FitsIdle(Shape[t], Hist(t))
 
 Init ==
   /\ O = InitOcc /\ active = 0 /\ pool = {} /\ qS = <<>> /\ qU = <<>>
@@ -325,22 +331,20 @@ InvStartedHolds == \A t \in Tasks : where[t] = "started" => H[t] # <<>>
 
 \* quiescence obligations: the loop goes to sleep only if ...
 InvSleepAlone == (pc = "sleep" /\ Cardinality(pool) = 1)
-                    => \A t \in pool : ~FitsNow(t)                 \* AloneStarts
+                    => \A t \in pool : ~FitsNowS(t)                \* AloneStarts
 InvSleepIdle  == (pc = "sleep" /\ Holding(H) = {} /\ pool # {})
-                    => \E t \in pool : ~FitsIdle(Shape[t], Hist(t))   \* IdleStartsSome
+                    => \E t \in pool : ~FitsIdleS(t)               \* IdleStartsSome
 InvSleepUnfit == (pc = "sleep" /\ Holding(H) = {} /\ Cardinality(pool) = 1)
                     => FALSE                                       \* UnfitAloneFails / AloneStarts
 \* a task that fits the idle pilot is never failed for lack of resources
 ActNoFalseFailure ==
   [][\A t \in Tasks : (where[t] # "failed" /\ where'[t] = "failed")
-        => (Oversize(Shape[t]) \/ ~FitsIdle(Shape[t], Hist(t))
-            \/ (Supplied[t] # <<>> /\ (~ShapeOK(Shape[t], Supplied[t], {})
-                                        \/ ~NoBlocked([x \in {t} |-> Supplied[t]]))))]_vars
+        => (Oversize(Shape[t]) \/ ~FitsIdleS(t))]_vars
 \* when only one of two waiting tasks can run, the higher priority one is started
 ActPriorityWins ==
   [][\A t, u \in Tasks :
         (pc = "wait" /\ pool = {t, u} /\ t # u /\ where[t] = "waiting" /\ where'[t] = "started"
-         /\ Prio(u) > Prio(t)) => ~FitsNow(u)]_vars
+         /\ Prio(u) > Prio(t)) => ~FitsNowS(u)]_vars
 
 \* liveness (checked under FairSpec, no cancel): a waiting task that fits from
 \* some point on is eventually started
